@@ -112,13 +112,12 @@ func propC08(p *Prog, r *Report) {
 	}
 	// C08.b
 	nb := 0
-	for _, k := range []string{"(*internal/usecase/core.UseCase).getFileFromTx", "(*internal/usecase/core.UseCase).getFilesFromTx"} {
-		gf := p.Func(k)
-		if gf == nil {
-			r.Undecided("C08.b", k, "", "not found")
-			continue
-		}
-		lr := p.LockFlow(gf, nil)
+	if p.Func(kGetFileFromTx) == nil || p.Func(kGetFilesFromTx) == nil {
+		r.Undecided("C08.b", "core.getFile(s)FromTx", "", "snapshot readers not found")
+	}
+	for _, gf := range localClosure(p, kGetFileFromTx, kGetFilesFromTx) {
+		k := gf.Key
+		lr := p.LockFlow(gf, entryHeldFor(p, gf))
 		ops := guardedOps()
 		done := map[*ast.CallExpr]bool{}
 		idx := 0
@@ -154,8 +153,9 @@ func propC08(p *Prog, r *Report) {
 	}
 	r.Floor("C08.b", "snapshot-read-sites", nb, 6)
 	// C08.c
+	c03StampReachesPublished(p, r, "C08.a")
 	sites := seqNextSites(p)
-	r.Floor("C08.c", "sequence.Next-call-sites", len(sites), 6)
+	r.Floor("C08.c", "sequence.Next-call-sites", len(sites), 5)
 	var table []map[string]any
 	var begin, commit, gc []seqSite
 	for _, s := range sites {
